@@ -171,4 +171,5 @@ import models_regex    # noqa
 import models_chrono   # noqa
 import models_json     # noqa
 import models_tera     # noqa
+import models_misc     # noqa
 _interp.OVERRIDES.update(models_tera.OVERRIDES)
